@@ -29,7 +29,8 @@ package totp2fa
 //@   ensures[C02] no_factor_no_effect: (ctxuser(r) != nil && len(TOTPSecretKey(ctxuser(r))) == 0) ==> (!emits Sess.Put(_, _) && !emits Redirect(_))
 //@
 //@ func (*TOTP).PostValidate
-//@   property C01 C02 C03 C04 C12 C13 C18
+//@   property C01 C02 C03 C04 C12 C13 C18 C17
+//@   ensures[C17] no_secret_leak: secrets_clean
 //@   -- C01/C02/C13: the session is completed only for the logged-in user, or - when nobody is
 //@   -- logged in - for the account parked in totp_pending, and only with that account's own factor
 //@   ensures[C01,C02,C12,C13] second_factor_guard: each Sess.Put("uid", ?v) =>
@@ -71,12 +72,14 @@ package totp2fa
 //@   ensures[C02] hijacker_registered: result == nil ==> emits Events.Register("Before", EventAuthHijack, ?h) :: fname(h) == "(*TOTP).HijackAuth"
 //@
 //@ func (*TOTP).PostSetup
-//@   property C13
+//@   property C13 C17
+//@   ensures[C17] no_secret_leak: secrets_clean
 //@   -- starting enrolment only parks a fresh secret in the session; nothing is saved
 //@   ensures nothing_saved: !emits Store.Save(_) && (each Sess.Put(?k, _) => k == SessionTOTPSecret)
 //@
 //@ func (*TOTP).PostConfirm
-//@   property C13 C18
+//@   property C13 C18 C17
+//@   ensures[C17] no_secret_leak: secrets_clean
 //@   -- the secret that becomes the account's factor is the one parked in this session, a code
 //@   -- valid for it was presented, and it is saved on the request's own user
 //@   ensures[C13] enrol_needs_code: each Store.Save(?s) -> _ =>
@@ -92,7 +95,8 @@ package totp2fa
 //@   ensures[C18] save_error_outcome: each Store.Save(_) -> ?e => e != nil ==> (result == e && !emits Respond(_, _, _) && !emits Sess.Del(_))
 //@
 //@ func (*TOTP).PostRemove
-//@   property C13 C18
+//@   property C13 C18 C17
+//@   ensures[C17] no_secret_leak: secrets_clean
 //@   -- the factor is only removed from the request's own account and only against a current
 //@   -- code or an unused recovery code of that account
 //@   ensures[C13] disable_needs_proof: each Store.Save(?s) -> _ => TOTPSecretKey(s) == "" ==>
